@@ -319,3 +319,16 @@ def _jsonable(x):
             except Exception:
                 pass
         return repr(x)
+
+
+def revive(x):
+    "JSON form of diff entries back to DiffEntry objects (replay)"
+    from nbdime.diff_format import DiffEntry
+    if isinstance(x, list):
+        return [revive(v) for v in x]
+    if isinstance(x, dict):
+        d = {k: revive(v) for k, v in x.items()}
+        if 'op' in d and 'key' in d and d['op'] in ('add', 'remove', 'replace', 'patch', 'addrange', 'removerange'):
+            return DiffEntry(**d)
+        return d
+    return x
